@@ -214,11 +214,21 @@ def must_walk(fx, W, v, depth=0, _seen=None):
             oks = [e for e in cfg.exit_sites(h) if e["kind"] in ("Ok", "call", "other")]
             if not oks:
                 return False
+            nchecked = 0
             for e in oks:
                 val = hv._rv(e["rv"], e["bb"], e["idx"]) if "rv" in e else hv.call_node(e["bb"])
+                # an `Ok(None)` / `None` exit hands nothing on: the value judged here is the Some payload
+                pv = peel(val)
+                if pv.kind == "agg" and pv.d["agg"].get("variant") in ("Ok", "Some") and len(pv.kids) == 1:
+                    pin = peel(pv.kids[0])
+                    if pin.kind == "agg" and pin.d["agg"].get("variant") == "None":
+                        continue
+                if pv.kind == "agg" and pv.d["agg"].get("variant") == "None" and not pv.kids:
+                    continue
+                nchecked += 1
                 if not must_walk(fx, W, val, depth + 1, _seen | {r}):
                     return False
-            return True
+            return nchecked > 0
         return False
     return must(v, pred)
 
